@@ -251,7 +251,11 @@ Section Only.
         + destruct (call_inner rN hid h s) as [r s1|e s1|p|]; try apply so_refl.
           norm_reg. destruct (sc_missing r); cbn [andb]; [apply so_strict_error|apply so_refl].
         + rewrite (so_unimpl _ He). apply so_err. exact He.
-      - destruct hid; try discriminate Hci; so_auto.
+      - destruct hid; try discriminate Hci; try solve [so_auto].
+        (* HLocal: the capture bracket of the "c:" mode *)
+        cbv zeta. destruct (starts_with _ name); [|so_auto].
+        destruct (hv_tpl h) as [t|]; [|apply so_refl].
+        so_scrut. ih.
     Qed.
 
     Lemma t_eval_decorator dt s :
